@@ -51,8 +51,8 @@ ASSUMPTIONS = ['floating-point rounding is outside the model: agreement is requi
                'opposite / generic branches) at 4e-12, exactly on axis-aligned power-of-two inputs; near-opposite '
                'inputs (angle th from opposite, th >= 1e-7) at 4e-12 + 8e-16/th because the code normalises a cross '
                'product of length th computed in floats; the band edges |u x v| = 1e-10 and |p_perp| = 1e-8 themselves '
-               'are avoided by the generator (model tests squared norms exactly, the code rounded norms); the snap is '
-               'accepted up to 4e-8 rad, beyond that it is finding F19t']
+               'are avoided by the generator (model tests squared norms exactly, the code rounded norms); the snap '
+               '(decided on the normalised vectors since b998548) is accepted up to 4e-8 rad']
 
 TOL = 1e-12
 PI2 = 2 * np.pi
@@ -2173,8 +2173,9 @@ def tsys_cases(rng, quick):
 def tsys_oracle(d, p, st, res):
     """transform_system(p, d, [e_1..e_n]) on the real code: the principal vector is passed through,
     the other vectors are transformed by a ROTATION M which takes d/|d| to p/|p| -- up to the
-    snap accepted as an ASSUMPTION of this check at unit scale: directions within 4e-8 rad of the
-    default may be treated as the default (identity).  A larger deviation is a violation."""
+    snap accepted as an ASSUMPTION of this check: directions within 4e-8 rad of the default may be
+    treated as the default (identity), whatever the length.  A larger deviation is a violation
+    (former finding F19t, repaired by b998548)."""
     d, p = np.asarray(d, dtype=float), np.asarray(p, dtype=float)
     n = len(d)
     nd, npn = np.linalg.norm(d), np.linalg.norm(p)
@@ -2183,9 +2184,15 @@ def tsys_oracle(d, p, st, res):
     if nd == 0:
         ok = st == 'ok' and close(np.asarray(res[1:]), np.eye(n), 0)
         return [] if ok else ['two zero vectors: expected the identity, got ' + st]
-    snapped = bool(np.allclose(p, npn / nd * d))
-    if npn < 1e-10 and not snapped:
-        return [] if st.startswith('err:ValueError') else ['accepts a vector shorter than 1e-10: ' + st]
+    dh, ph = d / nd, p / npn
+    th = abs(dh[0] * ph[1] - dh[1] * ph[0]) if n == 2 else float(np.linalg.norm(np.cross(dh, ph)))
+    # ASSUMPTION accepted by this check: directions within 4e-8 rad of the default may be treated
+    # as the default (identity, "dilation only") -- whatever the LENGTH of the given vector
+    near_default = bool(th <= 4e-8 and dh.dot(ph) > 0)
+    if npn < 1e-10 and st.startswith('err:ValueError') and not (th == 0 and dh.dot(ph) > 0):
+        return []   # too short for rotation_matrix_from_to: refused
+    if npn < 1e-10 and not near_default:
+        return ['accepts a vector shorter than 1e-10 that does not point in the default direction: ' + st]
     if st != 'ok':
         return ['raised ' + st]
     bad = []
@@ -2194,8 +2201,7 @@ def tsys_oracle(d, p, st, res):
     M = np.asarray(res[1:], dtype=float).T
     if not close(M.T.dot(M), np.eye(n), 1e-12) or abs(np.linalg.det(M) - 1) > 1e-12:
         bad.append('transformation of the default frame is not a rotation: {}'.format(M.tolist()))
-    dh, ph = d / nd, p / npn
-    th = abs(dh[0] * ph[1] - dh[1] * ph[0]) if n == 2 else float(np.linalg.norm(np.cross(dh, ph)))
+    snapped = bool(np.array_equal(M, np.eye(n)))
     if snapped:
         tol = 4e-8
     else:
@@ -2203,7 +2209,7 @@ def tsys_oracle(d, p, st, res):
         if n == 3 and th < 1e-10:
             tol += 2.5 * th
     if not close(M.dot(dh), ph, tol):
-        bad.append('M d/|d| - p/|p| = {} (tolerance {}, snapped={})'.format(
+        bad.append('M d/|d| - p/|p| = {} (tolerance {}, identity used={})'.format(
             np.abs(M.dot(dh) - ph).max(), tol, snapped))
     return bad
 
